@@ -795,3 +795,69 @@ def c02(tier, seed):
     c.required_points = ["CTX_SWITCH", "CTX_START_SWITCH", "CTX_SWITCH_CALL", "CTX_START_SWITCH_CALL", "CTX_JUMP_CALL",
                          "CTX_START_JUMP_CALL", "CTX_BEFORE_SWITCH", "EXIT_JUMP_TO_JOINER", "JOIN_SUSPEND"]
     return c
+
+
+FAULT_ENVS = [
+    {},
+    {"ABT_MEM_PAGE_SIZE": "4096", "ABT_MEM_STACK_PAGE_SIZE": "131072", "ABT_MEM_MAX_NUM_STACKS": "1",
+     "ABT_MEM_MAX_NUM_DESCS": "1", "ABT_MEM_LP_ALLOC": "malloc", "ABT_THREAD_STACKSIZE": "65536"},
+    {"ABT_MEM_PAGE_SIZE": "4096", "ABT_MEM_STACK_PAGE_SIZE": "262144", "ABT_MEM_MAX_NUM_STACKS": "1",
+     "ABT_MEM_MAX_NUM_DESCS": "1", "ABT_MEM_LP_ALLOC": "mmap_rp", "ABT_THREAD_STACKSIZE": "65536",
+     "ABT_KEY_TABLE_SIZE": "1", "ABT_MAX_NUM_XSTREAMS": "1"},
+    {"ABT_MEM_LP_ALLOC": "mmap_hp_thp", "ABT_MEM_PAGE_SIZE": "8192", "ABT_MEM_MAX_NUM_DESCS": "1",
+     "ABT_STACK_OVERFLOW_CHECK": "mprotect", "ABT_THREAD_STACKSIZE": "69632", "ABT_MEM_MAX_NUM_STACKS": "1"},
+    {"ABT_MEM_LP_ALLOC": "thp", "ABT_MEM_STACK_PAGE_SIZE": "2097152", "ABT_MEM_MAX_NUM_STACKS": "1",
+     "ABT_STACK_OVERFLOW_CHECK": "mprotect_strict", "ABT_THREAD_STACKSIZE": "65536", "ABT_MEM_PAGE_SIZE": "4096"},
+    {"ABT_MEM_LP_ALLOC": "mmap_hp_rp", "ABT_MEM_MAX_NUM_STACKS": "1", "ABT_MEM_MAX_NUM_DESCS": "1",
+     "ABT_MEM_PAGE_SIZE": "4096", "ABT_MEM_STACK_PAGE_SIZE": "131072", "ABT_THREAD_STACKSIZE": "65536",
+     "ABT_SET_AFFINITY": "1"},
+]
+
+
+@prop("C18")
+def c18(tier, seed):
+    c = Check("C18", tier, seed)
+    q = tier == "quick"
+    c.rule = ("each case = one complete cycle (ledger, ABT_init, world of a second stream + pools + parked ULT + key value + "
+              "sync objects, scenario preparation, world snapshot, the routine with its k-th allocation-class call failing, "
+              "checks, retry without fault, use and release of the created object, follow-up workload on the old objects, "
+              "teardown, ABT_finalize, ledger) for every k = 1..N of every scenario variant; ~95 scenario variants: ABT_init, "
+              "thread/task create (named, unnamed, attr stack size, user stack, on_xstream, create_to, create_many, after "
+              "0-11 live earlier units), revive, attr create/get, xstream create (4 forms + user scheduler), "
+              "set_main_sched(_basic) on the running primary stream, sched_create_basic (5 kinds x auto/given pools, config), "
+              "user-defined sched/pool/def/config, unit entering a user pool (create, push, migration), pool_add_sched, 12 "
+              "sync/key/timer constructors, key values (self, running unit on another stream, unstarted unit, table growth), "
+              "migration record (callback, to_pool, to_xstream); allocation-class calls = malloc, calloc, realloc, "
+              "posix_memalign, mmap, pthread_create, pthread_{mutex,cond,barrier}_init made by the calling thread (link-time "
+              "wrappers, also inside user callbacks); run under 6 memory configurations (default, tiny memory-pool pages with "
+              "malloc / mmap / huge-page fallbacks, mprotect stack guards, key table of 1, xstream array of 1); distinct = "
+              "distinct (variant, environment, scenario:variant:N)")
+    c.assumptions = ["only allocation-class calls made by the calling OS thread are failed; allocations made on behalf of the "
+                     "call by another stream's thread (e.g. the new stream's own start-up) are not enumerated",
+                     "a call that succeeds although the injected failure was delivered (large-page mmap falling back to "
+                     "another allocator) is counted as tolerated and its result is exercised like any other",
+                     "ABT_thread_create_many is documented as having no error handling; units it created before the failing "
+                     "one are joined by the harness and reported as the listed finding"]
+    parts = 4
+    envs = FAULT_ENVS[:3] if q else FAULT_ENVS
+    for j, env in enumerate(envs):
+        for part in range(parts):
+            c.add(Run("h_fault", "mon", ["--seed", seeds(seed, 1, salt=j)[0], "--part", part, "--parts", parts,
+                                         "--watchdog", 200], env=env, weight=3, tag="env%d.%d" % (j, part),
+                      extra_sources=("allocwrap.c",), ldflags=ALLOCWRAP_LD))
+    aenvs = [FAULT_ENVS[1]] if q else FAULT_ENVS
+    for j, env in enumerate(aenvs):
+        e = dict(env)
+        if "ABT_THREAD_STACKSIZE" in e:
+            e["ABT_THREAD_STACKSIZE"] = "262144"
+            e["ABT_MEM_STACK_PAGE_SIZE"] = "524288"
+        for part in range(parts):
+            c.add(Run("h_fault", "asan", ["--seed", seeds(seed, 1, salt=10 + j)[0], "--part", part, "--parts", parts,
+                                          "--watchdog", 200], env=e, weight=3, tag="asan%d.%d" % (j, part),
+                      extra_sources=("allocwrap.c",), ldflags=ALLOCWRAP_LD))
+    c.nontrivial = lambda r: (r.result or {}).get("counters", {}).get("cycles_with_a_delivered_fault", 0) > 0
+    c.required_counters = ["calls_failed_cleanly", "retries_succeeded", "followup_workloads", "failed_malloc",
+                           "failed_posix_memalign", "failed_mmap", "failed_pthread_create", "failed_pthread_mutex_init",
+                           "failed_pthread_cond_init", "failed_pthread_barrier_init"]
+    c.required_points = ["MEMPOOL_NEW_PAGE", "KTABLE_CREATED", "UNITMAP_APPEND"]
+    return c
